@@ -11,7 +11,7 @@ sw=/tmp/sw-$p$dv
 [ -f $src/patch.diff ] || { echo "$p $v: no patch"; exit 1; }
 demo=$(ls $src/demo_test.go 2>/dev/null)
 [ -n "$demo" ] || { echo "$p $v: no demo"; exit 1; }
-dir=$(head -3 $demo | grep -oE '(pkg|cmd|internal)/[A-Za-z0-9_/]+' | head -1 | sed 's:/$::')
+dir=$(head -3 $demo | grep -oE '(pkg|cmd|internal)/[A-Za-z0-9_/]+' | head -1 | sed 's:/$::; s:/[A-Za-z0-9_]*_test$::')
 tests=$(grep -oE '^func (Test[A-Za-z0-9_]+)' $demo | awk '{print $2}' | paste -sd'|')
 git -C /repo worktree add -q --detach $sw HEAD || exit 2
 cd $sw
@@ -20,7 +20,7 @@ moddir=.
 case $dir in cmd/hz/*) moddir=cmd/hz;; esac
 rel=${dir#cmd/hz/}
 [ $moddir = . ] && rel=$dir
-run_demo() { (cd $sw/$moddir && go test -vet=off -count=1 -run "^($tests)\$" ./$rel/ > /tmp/demo.$p$v.$1.log 2>&1; echo $?); }
+run_demo() { (cd $sw/$moddir && go test -tags verif -vet=off -count=1 -run "^($tests)\$" ./$rel/ > /tmp/demo.$p$v.$1.log 2>&1; echo $?); }
 if [ $res_apply = ok ]; then
   cp $demo $sw/$dir/zz_seed_demo_test.go
   with=$(run_demo with)
